@@ -163,7 +163,11 @@ func (g *histGen) genStmt(ext bool) *StmtProg {
 // genCopyStmt draws a COPY-in statement and the client's COPY messages.
 func (g *histGen) genCopyStmt() (*StmtProg, []pgwire.FMsg) {
 	r := g.r
-	sp := &StmtProg{Cols: genCols(r, r.Range(1, 4), baseOIDs)}
+	ncols := r.Range(1, 4)
+	if r.Chance(1, 15) {
+		ncols = r.PickInt(31, 32, 33, 40, 100, 300) // a wide table
+	}
+	sp := &StmtProg{Cols: genCols(r, ncols, baseOIDs)}
 	fmtc := int16(r.Intn(2))
 	sp.Ops = append(sp.Ops, Op{K: "copyin", Fmt: fmtc})
 	// client sequence
@@ -365,6 +369,14 @@ func (g *histGen) unit() {
 			prog := &Program{}
 			if g.o.errs && r.Chance(1, 10) {
 				prog.ParseErr = g.err()
+				if r.Chance(1, 3) {
+					// the parser fails after it had parsed some statements and hands
+					// them back together with the error: the query is rejected all the same
+					prog.Partial = true
+					for i := r.Range(1, 2); i > 0; i-- {
+						prog.Stmts = append(prog.Stmts, g.genStmt(false))
+					}
+				}
 			} else {
 				n := 1
 				if g.o.multi {
@@ -412,6 +424,10 @@ func (g *histGen) unit() {
 				switch {
 				case g.o.errs && r.Chance(1, 10):
 					prog.ParseErr = g.err()
+					if r.Chance(1, 3) {
+						prog.Partial = true
+						prog.Stmts = []*StmtProg{g.genStmt(true)}
+					}
 				case g.o.errs && r.Chance(1, 14):
 					// zero or several statements are an error for Parse
 					if r.Bool() {
@@ -747,6 +763,20 @@ func genHistory(r *Rand, c *Case, o histOpts) {
 			}
 			steps = append(steps, Step{Msgs: rest[i : i+n]})
 			i += n
+		}
+	}
+	if len(steps) > nstart+1 && r.Chance(1, 8) {
+		// a step that ends in the middle of a message: the client delivers the
+		// rest only after it has seen the replies to the complete messages
+		si := r.Range(nstart, len(steps)-2)
+		if n := len(steps[si].Msgs); n > 0 {
+			var size int64
+			for _, ch := range steps[si].Msgs[n-1].Encode() {
+				size += ch.Len()
+			}
+			if size > 1 && size < 1<<20 {
+				steps[si].HoldBack = r.Range(1, int(size)-1)
+			}
 		}
 	}
 	if r.Chance(1, 16) {
